@@ -801,6 +801,17 @@ class Explorer:
             raise Abort("deadline")
         t = time.time()
         r = self.solver.check(*extra)
+        if str(r) == "unknown":
+            # a query that ran into the per-query time limit (machine load) is retried with four times the limit and, if z3 still
+            # gives up, handed to cvc5; only then does it count as `unknown` (inconclusive, never a verdict)
+            self.retries = getattr(self, "retries", 0) + 1
+            try:
+                self.solver.set("timeout", 4 * ex_timeout(self))
+                r = self.solver.check(*extra)
+            finally:
+                self.solver.set("timeout", ex_timeout(self))
+            if str(r) == "unknown" and cvc5_decide(self.solver, list(extra), tlimit_ms=4 * ex_timeout(self)) == "unsat":
+                r = z3.unsat
         dt = time.time() - t
         self.tsolve += dt
         self.nchecks += 1
